@@ -6,7 +6,7 @@ Open Scope N_scope.
 Theorem C05src_value : forall fuel junk junkmsg secret key cfg i a,
   runs fuel junk secret -> small_input i ->
   Src.DecodeSecret fuel secret = Val (key, None) -> usable cfg -> admissible cfg i -> sc_hash cfg = N_of_alg a ->
-  Src.GenerateOCRA fuel junkmsg secret cfg i =
+  Src.GenerateOCRA fuel junkmsg secret (Some cfg) i =
   Val (ocra_value hmac a key (sc_raw cfg)
         (sel (sc_c cfg) (oi_counter i)) (sel (sc_q cfg) (oi_challenge i)) (sel (sc_p cfg) (oi_password i))
         (sel (sc_s cfg) (oi_session i)) (sel (sc_t cfg) (oi_timestamp i)) (Z.to_nat (sc_digits cfg)), None).
@@ -20,7 +20,7 @@ Print Assumptions C05src_value.
 (** fields the suite does not select, and whatever the pooled message buffer held, have no influence *)
 Theorem C05src_unselected : forall fuel junk junkmsg junkmsg' secret cfg i j,
   runs fuel junk secret -> small_input i -> small_input j -> agree cfg i j ->
-  Src.GenerateOCRA fuel junkmsg secret cfg i = Src.GenerateOCRA fuel junkmsg' secret cfg j.
+  Src.GenerateOCRA fuel junkmsg secret (Some cfg) i = Src.GenerateOCRA fuel junkmsg' secret (Some cfg) j.
 Proof.
   intros fuel junk junkmsg junkmsg' secret cfg i j (Hf & Hfs & Hs & Hj) Hi Hjj Hag.
   rewrite !src_GenerateOCRA_eq by (assumption || lia). rewrite (C05_unselected secret cfg i j Hag). reflexivity.
@@ -37,6 +37,6 @@ Print Assumptions C05src_pad.
 
 Example C05src_rfc_vector :
   Src.GenerateOCRA 40 (repeat 77 300) (s2b "GEZDGNBVGY3TQOJQGEZDGNBVGY3TQOJQ"%string)
-    (mkSuite (s2b "OCRA-1:HOTP-SHA1-6:QN08"%string) 0 6 1 false true false false false 0 0)
+    (Some (mkSuite (s2b "OCRA-1:HOTP-SHA1-6:QN08"%string) 0 6 1 false true false false false 0 0))
     (mkInput [] (repeat 0 128) [] [] []) = Val (s2b "237653"%string, None).
 Proof. vm_compute. reflexivity. Qed.
